@@ -77,7 +77,7 @@ def run(c, prog, R="C03.gram"):
     S = load_spec()["types"]
     efn, em, earms = common.binary_encoder_arms(prog)
     prims = C01_arm.binary_prims()
-    N = shape.Normaliser(prog, C01_arm.pairs())
+    N = shape.Normaliser(prog, C01_arm.pairs(prog))
     base_v = fld(("elem", ("in", "values")), "1")
     doc = spec.type_ids("binary.md")
     n = 0
